@@ -109,11 +109,13 @@ type SpecLib struct {
 	Sorts map[string]bool
 	// selectors of spec datatypes: sort -> field -> selector fn
 	Sels  map[string]map[string]string
+	// (define-sort N () S): N may be used as a lemma parameter type and stands for S
+	Alias map[string]string
 	Files []string
 }
 
 func NewSpecLib() *SpecLib {
-	return &SpecLib{Fns: map[string]*SpecFn{}, Sorts: map[string]bool{}, Sels: map[string]map[string]string{}}
+	return &SpecLib{Fns: map[string]*SpecFn{}, Sorts: map[string]bool{}, Sels: map[string]map[string]string{}, Alias: map[string]string{}}
 }
 
 func (sl *SpecLib) Load(path string) error {
@@ -142,6 +144,11 @@ func (sl *SpecLib) AddText(text string, pre bool) error {
 		switch x.List[0].Atom {
 		case "declare-sort":
 			sl.Sorts[x.List[1].Atom] = true
+		case "define-sort":
+			if len(x.List) == 4 && len(x.List[2].List) == 0 {
+				sl.Sorts[x.List[1].Atom] = true
+				sl.Alias[x.List[1].Atom] = x.List[3].String()
+			}
 		case "declare-const":
 			sl.Fns[x.List[1].Atom] = &SpecFn{Name: x.List[1].Atom, Res: x.List[2].String()}
 		case "declare-fun":
